@@ -158,3 +158,22 @@ Qed.
 Print Assumptions C04_source_retrieve_webentity.
 Print Assumptions C04_source_retrieve_prefix.
 Print Assumptions C04_source_webentity_by_prefix.
+
+(* the enumeration of webentity prefixes, on the translated LRUTrie.dfs_iter / webentity_prefix_iter (GenTrieD.v): for EVERY
+   history the translated generator yields exactly the (prefix, webentity) pairs of the SPECIFICATION's prefix map *)
+From Traph Require GenTrieD GenTrieDDfs.
+Theorem C04_source_prefix_iter : forall d rs h, wf_rules rs -> Forall wf_op h ->
+  let s := run d rs h in let a := srun d rs h in
+  forall sg, trep (TraceDefs.files_of s) sg ->
+  exists items sg', GenTrieD.py_trie_webentity_prefix_iter sg = Some (items, sg') /\ trep (TraceDefs.files_of s) sg' /\
+    forall l w, In (l, w) (map (fun it => (snd it, match GenTrieW.py_node_webentity (fst it) with Some w => w | None => 0%N end)) items)
+                <-> In (l, w) (a_pref a).
+Proof.
+  intros d rs h H1 H2 s a sg Hrep.
+  pose proof (StoreFacts2.run_Inv18 d rs h H2) as Hinv. fold s in Hinv.
+  pose proof (StoreFacts2.run_root_first d rs h) as Hroot. fold s in Hroot.
+  destruct (GenTrieDDfs.py_trie_webentity_prefix_iter_spec s Hinv sg Hroot Hrep) as (items & sg' & E & Hrep' & Hm).
+  exists items, sg'. split; [exact E|]. split; [exact Hrep'|].
+  intros l w. rewrite Hm. exact (C04_prefix_iter d rs h H1 H2 l w).
+Qed.
+Print Assumptions C04_source_prefix_iter.
